@@ -70,6 +70,10 @@ type wsPlan struct {
 	Ops [2][]wsOp // [0] client->server, [1] server->client
 	Max [2]int    // MaxPayloadBytes of the receiver of direction d
 	Byz []wsByz
+	// Bound[d] > 0: writes in direction d meet back-pressure (bounded transport
+	// buffer); at most one direction per run, so that the two sides cannot block
+	// each other. Needs the verif build tag of /repo (Conn.wio waiters block durably).
+	Bound [2]int
 }
 
 // wsFlaky is the receiving side's net.Conn with one injectable fault: when armed,
@@ -144,6 +148,15 @@ func wsDrawPlan(rt *rapid.T, byz bool) *wsPlan {
 			}
 			p.Ops[d] = append(p.Ops[d], op)
 		}
+	}
+	if !byz && vs.Pct(c, 25) {
+		d := c.Intn(2)
+		total := 0
+		for _, op := range p.Ops[d] {
+			total += op.Len + 14
+		}
+		// (every bound-full of bytes costs a delivery step: keep a run within its step budget)
+		p.Bound[d] = max(vs.Pick(c, 1, 9, 100, 4096, 5000), total/2000+1)
 	}
 	for d := 0; d < 2; d++ {
 		switch c.Intn(4) {
@@ -568,6 +581,14 @@ func wsRun(rt *rapid.T, t *testing.T) {
 		sim := vs.NewSim(tape, tr)
 		sim.MaxSteps, sim.Horizon = vs.Thorough(40000, 120000), 10*time.Minute
 		conn := vs.NewStreamConn(sim, "ws")
+		if p.Bound[0] > 0 {
+			conn.BoundAB(p.Bound[0])
+			vs.G.Inc("fault.write_backpressure")
+		}
+		if p.Bound[1] > 0 {
+			conn.BoundBA(p.Bound[1])
+			vs.G.Inc("fault.write_backpressure")
+		}
 		wire[0], wire[1] = &wsWire{keep: true}, &wsWire{keep: true}
 		conn.TapAB(func(b []byte) { wire[0].feed(b, nil, nil, nil) })
 		conn.TapBA(func(b []byte) { wire[1].feed(b, nil, nil, nil) })
